@@ -227,7 +227,15 @@ def handle (j : Json) : R Json := do
       let oj := fldD j "opts" (jObj [])
       let opts : RunOpts := ⟨boolFD oj "list_plugins" false, boolFD oj "check_prereqs_only" false,
         boolFD oj "prereqs_ok" true, boolFD oj "profile" false, boolFD oj "options_valid" true,
-        boolFD oj "any_module" true, boolFD oj "debug" false, boolFD oj "verbose" false⟩
+        boolFD oj "any_module" true, boolFD oj "debug" false, boolFD oj "verbose" false,
+        ← (match fldD oj "input" Json.null with
+            | .null => pure InputKind.sequence
+            | .str "sequence" => pure InputKind.sequence
+            | .str "nothing" => pure InputKind.nothing
+            | .str "empty" => pure (InputKind.reuse .empty)
+            | .str "notjson" => pure (InputKind.reuse .notJson)
+            | .str "noschema" => pure (InputKind.reuse (.doc none))
+            | v => do pure (InputKind.reuse (.doc (some (← asNat v)))) : R InputKind)⟩
       let x := runFull opts r
       let codeJ : Option Nat → Json := fun c => match c with | none => Json.null | some n => toJson n
       let runOutOfJson : Json → R RunOut := fun i => do
